@@ -38,7 +38,7 @@ MANIFEST = {
 
 
 def plan(tier):
-    t = 300 if tier == "quick" else 2400
+    t = 300 if tier == "quick" else 900
     parts = [f"0:{c},1:{d},2:{r},3:{pf},4:{pc}" for c in range(2) for d in range(2) for r in range(3) for pf in range(2) for pc in range(2)
              if tier == "thorough" or c == 0]
     return [
